@@ -162,9 +162,11 @@ class Type1FontHeaderParser(PSStackParser[int]):
 
     def do_keyword(self, pos: int, token: PSKeyword) -> None:
         if token is self.KEYWORD_PUT:
-            ((_, key), (_, value)) = self.pop(2)
-            if isinstance(key, int) and isinstance(value, PSLiteral):
-                self.add_results((key, literal_name(value)))
+            objs = self.pop(2)
+            if len(objs) == 2:
+                ((_, key), (_, value)) = objs
+                if isinstance(key, int) and isinstance(value, PSLiteral):
+                    self.add_results((key, literal_name(value)))
         elif token is self.KEYWORD_STANDARD_ENCODING:
             # "/Encoding StandardEncoding def" instead of an explicit vector
             self._cid2unicode.update(EncodingDB.std2unicode)
